@@ -62,7 +62,7 @@
 (***************************************************************************)
 EXTENDS Integers, Sequences, FiniteSets, TLC, Json, DosiniCatalogue
 
-CONSTANTS Family,      \* "options" | "variables" | "environments" | "status" | "output" | "names"
+CONSTANTS Family,      \* "options" | "variables" | "environments" | "status" | "output" | "names" | "history"
           Tier,        \* "quick" | "thorough": size of the enumerated family
           Emit,        \* TRUE: print every case (instance + expected view) as JSON in state "loaded"
           Fault        \* "none", or a named deviation of the frontend used as reachability witness:
@@ -71,6 +71,8 @@ CONSTANTS Family,      \* "options" | "variables" | "environments" | "status" | 
                        \*   "no-migration"              the writer forgets the global variables in [META]
                        \*   "component-variable-equal-to-global-not-written"  the writer leaves out a component variable whose
                        \*                               text equals the global one (wrong when the stage overrides it)
+                       \*   "stale-stage-files-kept"    a Dump over an older one removes only the stage files it is about
+                       \*                               to write: files of stages that no longer exist stay and are loaded
                        \*   "env-name-cut-at-hyphen"    the reader recovers an environment name from [ENV-<NAME>] by
                        \*                               splitting at '-' instead of dropping the 4-character prefix
 
@@ -132,9 +134,12 @@ NoVal == V("none", "", 0)
 
 ---------------------------------------------------------------------------
 (* Families of instances *)
-Neutral == [fam |-> Family, kind |-> "", backend |-> "local", layer |-> "component", inject |-> FALSE, opts |-> {},
-            vars |-> {}, envs |-> {}, apps |-> 0, venvs |-> 0,
-            status |-> <<>>, output |-> {}, comps |-> {}, nstages |-> 2]
+(* A description (Blank = nothing set).  An instance is a description plus, in family "history", the description that *)
+(* was written into the same directory BEFORE it (hasPrev, prev).                                                     *)
+Blank == [fam |-> Family, kind |-> "", backend |-> "local", layer |-> "component", inject |-> FALSE, opts |-> {},
+          vars |-> {}, envs |-> {}, apps |-> 0, venvs |-> 0,
+          status |-> <<>>, output |-> {}, comps |-> {}, nstages |-> 2]
+Neutral == Blank @@ [hasPrev |-> FALSE, prev |-> Blank]
 
 NativeOf(S) == IF \E a \in S : a.section = "resourceManager.lsf" THEN "lsf"
                ELSE IF \E a \in S : a.section = "resourceManager.kubernetes" THEN "kubernetes" ELSE "local"
@@ -221,6 +226,23 @@ NameCases ==
                           !.output = IF "output" \in W THEN {[name |-> "Out", datain |-> "rel", desc |-> "plain", type |-> "csv", stages |-> "idxLast"]} ELSE {}] :
               W \in SUBSET {"status", "vars", "output"}}
 
+(* history: two descriptions written one after the other into the SAME directory (update_existing = TRUE), then a  *)
+(* Load.  The descriptions differ in the number of stages (fewer / same / more, also >= 10), in the components of   *)
+(* stage 1 and in whether they have environments, variables, status and output at all.  The property speaks about   *)
+(* the LAST description written: nothing of the previous one may be read back.                                      *)
+StatusFor(k) == [j \in 1..k |-> [w |-> IF j = k THEN 10000 - (10000 \div k) * (k - 1) ELSE 10000 \div k,
+                                  form |-> IF j = k THEN "exeArgs" ELSE "weight"]]
+Shape(k, cs, full) ==
+    [Blank EXCEPT !.kind = "history", !.nstages = k, !.comps = cs,
+                  !.envs = IF full THEN {[name |-> "env1", vars |-> {"PATH"}, cls |-> "dollar"]} ELSE {},
+                  !.vars = IF full THEN {[scope |-> "global", name |-> "v", cls |-> "punct", val |-> "global"],
+                                         [scope |-> "stage1", name |-> "v", cls |-> "punct", val |-> "stage1"],
+                                         [scope |-> "comp:c", name |-> "V", cls |-> "punct", val |-> "comp:c"]} ELSE {},
+                  !.status = IF full THEN StatusFor(k) ELSE <<>>,
+                  !.output = IF full THEN {[name |-> "Out", datain |-> "abs", desc |-> "plain", type |-> "csv", stages |-> "absent"]} ELSE {}]
+Shapes == {Shape(k, cs, full) : k \in {2, 3, 4, ManyStages}, cs \in {{}, {"gcc"}}, full \in BOOLEAN}
+HistoryCases == {(d @@ [hasPrev |-> TRUE, prev |-> p]) : p \in Shapes, d \in Shapes}
+
 Instances ==
     CASE Family = "options" -> {[Neutral EXCEPT !.backend = c.backend, !.layer = c.layer, !.inject = c.inject, !.opts = c.opts] : c \in OptionCases}
       [] Family = "variables" -> {[Neutral EXCEPT !.vars = S] : S \in VariableCases}
@@ -228,6 +250,7 @@ Instances ==
       [] Family = "status" -> {[Neutral EXCEPT !.status = s] : s \in StatusCases}
       [] Family = "output" -> {[Neutral EXCEPT !.output = o] : o \in OutputCases}
       [] Family = "names" -> NameCases
+      [] Family = "history" -> HistoryCases
 
 ---------------------------------------------------------------------------
 (* The instance as the writer sees it *)
@@ -442,8 +465,28 @@ Init == /\ inst \in Instances
         /\ loaded = EmptyLoaded
         /\ first = EmptyLoaded
 
-Dump == /\ phase = "instance"
-        /\ files' = DumpOf(inst)
+(* A Dump into a directory that already holds the files of an earlier Dump (update_existing = TRUE):                 *)
+(*  - every stage file of the directory is removed first (all of them, not only those of the stages being written), *)
+(*  - the environment file is rewritten (status.conf / output.conf are rewritten by their own writers),              *)
+(*  - an existing variables.conf is left alone (it is never read by an instance load).                               *)
+IsStageFile(f) == \E k \in AllStages : f = StageFile(k)
+Removed(old, i, f) ==
+    \/ f \in {EnvFile, StatusFile, OutputFile}
+    \/ IF Fault = "stale-stage-files-kept" THEN \E k \in StagesOf(i) : f = StageFile(k) ELSE IsStageFile(f)
+DumpOver(old, i) ==
+    LET new == DumpOf(i)
+        hadVarFile == old # [sections |-> {}, lines |-> {}]
+    IN [sections |-> {x \in old.sections : ~Removed(old, i, x.file)} \cup new.sections,
+        lines |-> {l \in old.lines : ~Removed(old, i, l.file)} \cup {l \in new.lines : ~(hadVarFile /\ l.file = VarFile)}]
+
+DumpPrevious == /\ phase = "instance" /\ inst.hasPrev
+                /\ files' = DumpOf(inst.prev)
+                /\ phase' = "previous"
+                /\ UNCHANGED <<inst, loaded, first>>
+
+Dump == /\ \/ phase = "instance" /\ ~inst.hasPrev
+           \/ phase = "previous"
+        /\ files' = DumpOver(files, inst)
         /\ phase' = "dumped"
         /\ UNCHANGED <<inst, loaded, first>>
 
@@ -463,12 +506,12 @@ Reload == /\ phase = "dumped2"
           /\ phase' = "loaded2"
           /\ UNCHANGED <<inst, files, first>>
 
-Next == Dump \/ Load \/ Redump \/ Reload
+Next == DumpPrevious \/ Dump \/ Load \/ Redump \/ Reload
 Spec == Init /\ [][Next]_vars
 
 ---------------------------------------------------------------------------
 (* Properties *)
-TypeOK == phase \in {"instance", "dumped", "loaded", "dumped2", "loaded2"}
+TypeOK == phase \in {"instance", "previous", "dumped", "loaded", "dumped2", "loaded2"}
 
 (* C19 *)
 RoundTrip == (phase \in {"loaded", "loaded2"}) => ViewOfLoaded(loaded) = ExpectedView(inst)
@@ -485,20 +528,23 @@ WitnessPairFolded == ~(phase = "loaded" /\ Cardinality(inst.opts) = 2 /\ inst.la
 WitnessMigration == ~(phase = "loaded" /\ \E x \in inst.vars : x.scope = "global" /\ \E y \in inst.vars : y.scope = "stage1" /\ y.name = x.name)
 WitnessLayering == ~(phase = "loaded" /\ \E g, t, c \in inst.vars : /\ g.scope = "global" /\ t.scope = "stage1" /\ c.scope = "comp:c"
                                                                        /\ g.name = t.name /\ t.name = c.name /\ g.val = c.val /\ g.val # t.val)
+WitnessFewerStages == ~(phase = "loaded" /\ inst.hasPrev /\ inst.prev.nstages > inst.nstages)
 WitnessPrefixNames == ~(phase = "loaded" /\ {e.name : e \in inst.envs} = {"gcc", "gcc-7"})
 WitnessManyStages == ~(phase = "loaded" /\ inst.nstages = ManyStages /\ Len(inst.status) = ManyStages)
 
 (* emission for the conformance driver: the case and the expected explicit (non-default) part of the view *)
 ExplicitExpected(i, c) == {[comp |-> c.name, path |-> o.path, src |-> o.val.src, a |-> o.val.a, n |-> o.val.n] : o \in {x \in ExplicitOpts(i, c) : x.val.src # "default"}}
+CaseRecord(i) ==
+    [fam |-> i.fam, kind |-> i.kind, backend |-> i.backend, layer |-> i.layer, inject |-> i.inject,
+     opts |-> {a.idx : a \in i.opts},
+     vars |-> i.vars, envs |-> i.envs, apps |-> i.apps, venvs |-> i.venvs,
+     status |-> i.status, output |-> i.output, comps |-> i.comps, nstages |-> i.nstages,
+     expected |-> [comps |-> CompsOf(i),
+                   explicit |-> UNION {ExplicitExpected(i, c) : c \in CompsOf(i)},
+                   isRepeat |-> {c.name : c \in {d \in CompsOf(i) : IsRepeat(ExplicitOpts(i, d))}},
+                   vars |-> UNION {{[comp |-> c.name, name |-> x.name, scope |-> x.val.a, src |-> x.val.src, n |-> x.val.n] : x \in ExpectedVars(i, c)} : c \in CompsOf(i)},
+                   envs |-> {EnvLower(e.name) : e \in i.envs}]]
 EmitCase ==
     (Emit /\ phase = "loaded") =>
-        PrintT(ToJson([fam |-> inst.fam, kind |-> inst.kind, backend |-> inst.backend, layer |-> inst.layer, inject |-> inst.inject,
-                       opts |-> {a.idx : a \in inst.opts},
-                       vars |-> inst.vars, envs |-> inst.envs, apps |-> inst.apps, venvs |-> inst.venvs,
-                       status |-> inst.status, output |-> inst.output, comps |-> inst.comps, nstages |-> inst.nstages,
-                       expected |-> [comps |-> CompsOf(inst),
-                                     explicit |-> UNION {ExplicitExpected(inst, c) : c \in CompsOf(inst)},
-                                     isRepeat |-> {c.name : c \in {d \in CompsOf(inst) : IsRepeat(ExplicitOpts(inst, d))}},
-                                     vars |-> UNION {{[comp |-> c.name, name |-> x.name, scope |-> x.val.a, src |-> x.val.src, n |-> x.val.n] : x \in ExpectedVars(inst, c)} : c \in CompsOf(inst)},
-                                     envs |-> {EnvLower(e.name) : e \in inst.envs}]]))
+        PrintT(ToJson(IF inst.hasPrev THEN CaseRecord(inst) @@ [previous |-> CaseRecord(inst.prev)] ELSE CaseRecord(inst)))
 =============================================================================
